@@ -526,7 +526,7 @@ def any_expr(draw, depth: int, names: List[str], macro_vars: Tuple[str, ...] = (
         if k < 8:
             return ("method", sub(), draw(st.sampled_from(METHODS1 + METHODS0)), (sub(),))
         # (two arguments after a macro name would be the macro with a non-identifier variable: out of domain)
-        return ("method", sub(), draw(st.sampled_from([m for m in METHODS1 + METHODS0 + FUNCS1 if m not in ("map", "filter", "all", "exists", "exists_one")])), (sub(), sub()))
+        return ("method", sub(), draw(st.sampled_from([m for m in METHODS1 + METHODS0 + FUNCS1 if m not in ("map", "filter", "all", "exists", "exists_one") and "." not in m])), (sub(), sub()))
     if c == "macro":
         var = draw(st.sampled_from(["x", "y", "i"]))
         return ("macro", sub(), draw(st.sampled_from(["map", "filter", "all", "exists", "exists_one"])), var, sub(macro_vars + (var,)))
